@@ -1,21 +1,23 @@
 -------------------------------- MODULE Lifecycle --------------------------------
 (* C06: the life of one run of the tool chain on one project, as an acceptance automaton.   *)
-(*   start -> parsed -> format* -> [ build passes -> listing* ] -> [ greedy passes ] -> done *)
+(*   start -> parsed -> format* -> [ build passes -> merge -> symbols -> listing* ] -> [ greedy passes ] -> done *)
 (* A run is clean when it ends in "done" without panic, hang or abort, every pass loop ends  *)
 (* by itself after a bounded number of passes, a project that parses and                     *)
 (* assembles without diagnostics yields listings, and every location a diagnostic carries    *)
 (* lies inside an existing file of the project.                                              *)
 EXTENDS Integers, Sequences, FiniteSets, TLC
 
-Phases == {"init", "started", "parsed", "formatted", "built", "listed", "analysed"}
+Phases == {"init", "started", "parsed", "formatted", "built", "merged", "exported", "listed", "analysed"}
 (* which event may follow in which phase, and the phase it leads to *)
 NextPhase(ph, e) ==
   CASE ph = "init"      /\ e.ev = "start"   -> "started"
     [] ph = "started"   /\ e.ev = "parsed"  -> "parsed"
     [] ph \in {"parsed", "formatted"} /\ e.ev = "format"  -> "formatted"
     [] ph \in {"parsed", "formatted"} /\ e.ev = "codegen" /\ e.mode = "build" -> "built"
-    [] ph \in {"built", "listed"} /\ e.ev = "listing" -> "listed"
-    [] ph \in {"built", "listed"} /\ e.ev = "codegen" /\ e.mode = "greedy" -> "analysed"
+    [] ph = "built"     /\ e.ev = "merge"   -> "merged"          \* BinaryWriter::merge_segments, as `mos build' runs it after codegen
+    [] ph = "merged"    /\ e.ev = "symbols" -> "exported"        \* to_vice_symbols
+    [] ph \in {"exported", "listed"} /\ e.ev = "listing" -> "listed"
+    [] ph \in {"built", "exported", "listed"} /\ e.ev = "codegen" /\ e.mode = "greedy" -> "analysed"
     [] OTHER -> "reject"
 
 RECURSIVE Walk(_, _, _)
@@ -31,5 +33,5 @@ LocOk(d, files) == ~d.located \/ (d.file \in files /\ d.line >= 1 /\ d.line <= d
 DiagsOk(e, files) == \A i \in 1..Len(e.diags) : LocOk(e.diags[i], files)
 
 Codegens(evs) == SelectSeq(evs, LAMBDA e : e.ev = "codegen")
-WithDiags(evs) == SelectSeq(evs, LAMBDA e : e.ev \in {"codegen", "parsed"})
+WithDiags(evs) == SelectSeq(evs, LAMBDA e : e.ev \in {"codegen", "parsed", "merge"})
 ================================================================================
